@@ -35,6 +35,7 @@ type Term struct {
 type TermTable struct {
 	// SelectHook expands reads of "mixed" heaps (see effects.go): select(mix(H, F), q) = ite(keep(q), H[q], F[q])
 	SelectHook func(a, i *Term) *Term
+	selMemo map[[2]int]*Term
 	tab   map[string]*Term
 	n     int
 	fresh map[string]int
@@ -473,6 +474,22 @@ func containsMix(a *Term) bool {
 }
 
 func (tt *TermTable) Select(a, i *Term) *Term {
+	if a.Kind != KApp {
+		return tt.select1(a, i)
+	}
+	if tt.selMemo == nil {
+		tt.selMemo = map[[2]int]*Term{}
+	}
+	k := [2]int{a.id, i.id}
+	if r, ok := tt.selMemo[k]; ok {
+		return r
+	}
+	r := tt.select1(a, i)
+	tt.selMemo[k] = r
+	return r
+}
+
+func (tt *TermTable) select1(a, i *Term) *Term {
 	_, es := splitArraySort(a.Sort)
 	for a.Kind == KApp && a.Op == "store" {
 		j := a.Args[1]
